@@ -328,6 +328,7 @@ def c09(res, st, std_coq):
     report_oracle(res, "C09", cases, "error contract violated")
     # C09_type_parser_contract is about Parse/TypeRecover.v: tie it to ParseType
     type_recover_correspondence(res, rnd, q)
+    stmt_family_correspondence(res, rnd, q)
     res.add_cases(len(cases), len(set(cases)), [gens.case_lines(cases[:1]).strip()[:200], gens.case_lines(cases[-1:]).strip()[:200]])
     res.cov["rule"] = ("theorems on the trace model + syntactic obligations on the regenerated summary + escape theorem; implementation: corpus, "
                        "mutations, soups, lists, generated sentences, sentences with one token deleted/inserted/replaced/truncated, random bytes, systematic "
@@ -447,6 +448,8 @@ def sampled(res, st, std_coq, extra_vo=()):
         frag_correspondence(res, ins, "expression fragment")
         res.add_cases(len(ins), len(set(ins)), [])
         type_correspondence(res, rnd, q)
+    if have and pid == "C08":
+        stmt_family_correspondence(res, rnd, q)
     return cases
 
 
